@@ -136,9 +136,11 @@ class IndividualParameters:
 
             scalar_type = type(v)
             if isinstance(v, list):
-                scalar_type = None if len(v) == 0 else type(v[0])
-            # elif isinstance(v, np.ndarray):
-            #    scalar_type = v.dtype
+                # every element must be a valid scalar (report the first invalid one)
+                scalar_type = next(
+                    (type(x) for x in v if type(x) not in valid_scalar_types),
+                    None if len(v) == 0 else type(v[0]),
+                )
 
             if scalar_type not in valid_scalar_types:
                 raise LeaspyIndividualParamsInputError(
